@@ -54,7 +54,7 @@ PROBES = {
     "guard_without_define": ("no.h", "#ifndef NO_H\n\nint\tfoo(void);\n\n#endif\n"),
     "ifdef_of_other_files_macro": ("x.c", "#ifdef A\n# define B 2\n#else\n# define B 3\n#endif\n\nint\tmain(void)\n{\n\treturn (B);\n}\n"),
     "comment_between_type_and_name": ("y.c", "int\tfn(int /* n */ a, char * /* s */ b)\n{\n\treturn (a + b[0]);\n}\n"),
-    "nested_parentheses_90": ("z.c", "int\tfn(int a)\n{\n\treturn (" + "(" * 90 + "a" + ")" * 90 + ");\n}\n"),
+    "nested_parentheses_200": ("z.c", "int\tfn(int a)\n{\n\treturn (" + "(" * 200 + "a" + ")" * 200 + ");\n}\n"),
     "six_funcs": ("u.c", "\n".join("int\tf%d(void)\n{\n\treturn (%d);\n}\n" % (i, i) for i in range(6))),
 }
 
